@@ -36,7 +36,11 @@ impl RecordPool {
             let host = 1 + (k % 250) as u8;
             let port = 9000 + k as u16;
             let mk = |s: usize, seq: u64| -> Enr {
-                if s < NSUB {
+                if s < NSUB && k % 7 == 3 {
+                    // an IPv4 address without a UDP port: it counts like any other address of its /24
+                    let sn = subnet(s);
+                    build_enr(&sk, seq, EnrAddr::IpOnly(v4(sn[0], sn[1], sn[2], host, port).ip()), None)
+                } else if s < NSUB {
                     let sn = subnet(s);
                     build_enr(&sk, seq, EnrAddr::Socket(v4(sn[0], sn[1], sn[2], host, port)), None)
                 } else if k % 2 == 0 {
@@ -252,7 +256,7 @@ pub fn scenario_service(seed: u64, pool: &RecordPool, rep: &mut Report) {
                 _ => rng.usize(NSUB),
             };
             let enr = pool.variants[k][s].clone();
-            if rng.bool() {
+            if rng.bool() || enr.udp4_socket().is_none() {
                 let r = rig.discv5.add_enr(enr.clone());
                 log.push(json!({"step": step, "ev": "add_enr", "subnet": s, "result": format!("{r:?}")}));
             } else {
